@@ -257,7 +257,8 @@ fn inverse(stride: i64, offset: i64, log: &mut Log) {
 
 fn day_agreement(cfg: &Cfg, log: &mut Log) {
   let t = terms();
-  let full = cfg.tier == Tier::Thorough;
+  // cheap enough to be complete in both tiers (the whole sweep costs ~0.5 s on 16 threads)
+  let full = true;
   let mut near = 0u64;
   for k in Terms::idx(1961, 0)..Terms::idx(10000, 0) {
     let term = t.v[k];
@@ -305,7 +306,7 @@ fn day_agreement(cfg: &Cfg, log: &mut Log) {
     }
   }));
   // beyond AD 8000 (outside the claim): counted, not judged
-  if full {
+  if cfg.tier == Tier::Thorough {
     let mut beyond = 0;
     for k in e..seq.months.len() {
       let lm = seq.months[k];
@@ -408,8 +409,8 @@ pub fn run(cfg: &Cfg) -> (Log, Meta) {
   log.floor("window.grid_points", cfg.tier.pick(30_000, 300_000));
   log.floor("inverse.sun_targets", cfg.tier.pick(30_000, 400_000));
   log.floor("inverse.moon_targets_AD_0_5000", cfg.tier.pick(4_000, 50_000));
-  log.floor("agreement.terms_1961_9999", cfg.tier.pick(15_000, 190_000));
-  log.floor("agreement.lunations_1961_8000", cfg.tier.pick(5_000, 70_000));
+  log.floor("agreement.terms_1961_9999", 190_000);
+  log.floor("agreement.lunations_1961_8000", 70_000);
   log.floor("deltat.integer_year_joins", 14_000);
   let meta = Meta {
     rule: format!(
@@ -417,8 +418,8 @@ pub fn run(cfg: &Cfg) -> (Log, Meta) {
       if cfg.tier == Tier::Thorough { "3.3".to_string() } else { format!("{}", 29 + cfg.seed % 5) },
       if cfg.tier == Tier::Thorough { "" } else { "7th" },
       if cfg.tier == Tier::Thorough { "" } else { "7th" },
-      if cfg.tier == Tier::Thorough { "all 192,936" } else { "every 10th year's and all near-midnight" },
-      if cfg.tier == Tier::Thorough { "all" } else { "every 10th year's" }
+      "all 192,936",
+      "all 74,704"
     ),
     assumptions: vec![
       "the independent theory is accurate to about 0.01 deg (Sun) and about 10 arcsec plus secular drift (Moon); coefficient changes below that which move no civil day are invisible (DESIGN section 9)".into(),
